@@ -262,10 +262,12 @@ def _member(v, objects):
 
 
 def _regex(rx, v):
+    """the value must match the regular expression from its beginning (re.match semantics, as for every `regex=` in param);
+    whether a match must also extend to the end of the value is left open"""
     if rx is None:
         return ACCEPT
     if re.fullmatch(rx, v):
         return ACCEPT
-    if re.search(rx, v) is None:
+    if re.match(rx, v) is None:
         return REJECT
-    return EITHER      # matches somewhere but not the whole value: match/search/fullmatch semantics differ
+    return EITHER
